@@ -123,6 +123,9 @@ def history_stage(run, pid, tier, seed, scs, judge, identity, extra_identities=(
     pick = [sc for sc in scs if not any(ph["class"] for s_ in sc["sets"] for ph in s_["phases"])]
     rng.shuffle(pick)
     pick = pick[: 150 if tier == "quick" else 2500]
+    # half of the histories run on one long-lived controller instance (what it keeps in memory between passes is then
+    # inside the run), half on a fresh controller per pass (restart between passes): the model has no in-memory state
+    pick = [dict(sc, reuse=(i % 2 == 0)) for i, sc in enumerate(pick)]
     outs = vlib.run_harness("objectset", [dict(sc, passes=passes) for sc in pick])
     terms, meta = [], []
     for sc, o in zip(pick, outs):
